@@ -24,6 +24,8 @@ def gen(ctx, n):
                       'gamma': r.choice([0.3, 0.5, 0.8]), 'lr': r.choice([0.1, 0.2, 0.5]), 'maxc': r.choice([1e3, 2.5]), 'minc': r.choice([1e-3, 0.4]),
                       'steps': steps, 'skip': r.random() < 0.2,
                       'norms': [[round(C * r.choice([0.2, 0.6, 0.999, 1.0, 1.001, 1.5, 3.0]), 6) for _ in range(nn_)] for _ in range(steps)]})
+        if r.random() < 0.25:            # an empty Poisson batch somewhere in the run
+            cases[-1]['norms'][r.randrange(steps)] = []
     return cases
 
 
@@ -52,9 +54,12 @@ def judge(ctx, c, rr):
         if abs(rec[0][0] - sg * C0) > 1e-12 * (1 + sg * C0):
             ctx.fail('gradient-noise-std', 'gradient noise std %r, expected sigma_g*C = %r' % (rec[0][0], sg * C0), c)
         z = rec[-1][2]
-        want = C0 * math.exp(-c['lr'] * ((pend_count + z) / pend_n - c['gamma']))
-        want = min(max(want, c['minc']), c['maxc'])
-        if abs(st['C1'] - want) > 1e-6 * (1 + abs(want)):
+        if pend_n == 0:                  # nothing but empty batches since the last update: the norm stays (and is a number)
+            want = C0
+        else:
+            want = C0 * math.exp(-c['lr'] * ((pend_count + z) / pend_n - c['gamma']))
+            want = min(max(want, c['minc']), c['maxc'])
+        if not abs(st['C1'] - want) <= 1e-6 * (1 + abs(want)):
             ctx.fail('update-rule', 'norm after the step %r, rule gives %r (count %d of %d, noise %r)' % (st['C1'], want, pend_count, pend_n, z), c)
         pend_count, pend_n = 0, 0
         if st['hist']:
